@@ -29,14 +29,14 @@ func verifASCII(name string, n int) []byte {
 // budget (a constant for I/O buffers plus 64 elements per input byte): what
 // make() allocates must stay proportional to the input.
 //
-//verif:harness param.L=0..4 thorough.param.L=0..6 unwind=48 thorough.deadline=7000
+//verif:harness param.L=0..4 thorough.param.L=0..5 unwind=48 thorough.deadline=1500
 func verif_harness_C16_buckets_bytes() {
 	var bs Buckets
 	err := bs.UnmarshalText(verifASCII("text", verif_param("L")))
 	verif_assert(err != nil || len(bs) > 0, "C16.buckets-value-or-error")
 }
 
-//verif:harness param.L=0..3 thorough.param.L=0..5 unwind=48 thorough.deadline=7000
+//verif:harness param.L=0..3 thorough.param.L=0..4 unwind=48 thorough.deadline=1500
 func verif_harness_C16_http_targeter_bytes() {
 	src := verifASCII("doc", verif_param("L"))
 	verif_alloc_limit(verifC16Budget + 64*len(src))
@@ -51,7 +51,7 @@ func verif_harness_C16_http_targeter_bytes() {
 	verif_reach("done")
 }
 
-//verif:harness param.L=0..3 thorough.param.L=0..5 unwind=48 thorough.deadline=7000
+//verif:harness param.L=0..3 thorough.param.L=0..4 unwind=48 thorough.deadline=1500
 func verif_harness_C16_json_targeter_bytes() {
 	src := verifASCII("doc", verif_param("L"))
 	verif_alloc_limit(verifC16Budget + 64*len(src))
@@ -70,7 +70,7 @@ func verif_harness_C16_json_targeter_bytes() {
 	verif_reach("done")
 }
 
-//verif:harness param.L=0..3 thorough.param.L=0..5 unwind=48 thorough.deadline=7000
+//verif:harness param.L=0..3 thorough.param.L=0..4 unwind=48 thorough.deadline=1500
 func verif_harness_C16_json_decoder_bytes() {
 	src := verifASCII("doc", verif_param("L"))
 	verif_alloc_limit(verifC16Budget + 64*len(src))
